@@ -25,6 +25,9 @@ KROME_WINDOW_TEXT = [
     ("1.0d4", 10000.0), ("<1e4", 10000.0), ("5.5e3", 5500.0), (".LT.300", 300.0), ("1160", 1160.0), (".GE.5d1", 50.0),
     ("11604.52", 11604.52), ("157821.3", 157821.3), (".GE.1234567.25", 1234567.25),      # bounds with more than six significant digits
 ]
+# spellings of a limit the reader is not known to translate (upper-case exponent letter, lower-case operator, >=): the file is refused, or
+# the limit is honoured -- never dropped
+KROME_EXOTIC_TEXT = [("5.5D3", 5500.0), (".le.3d2", 300.0), (">=10", 10.0), ("1.16D3", 1160.0), (".GE.2.5D1", 25.0)]
 WINDOWS = [(-1.0, -1.0), (0.0, 0.0), (10.0, -1.0), (-1.0, 300.0), (10.0, 300.0), (300.0, 1000.0), (1000.0, 41000.0), (5.0, 10.0),
            (0.0, 50.0), (20.0, 0.0), (11604.52, 157821.3), (1234.56, 1234567.25)]
 
@@ -35,6 +38,7 @@ def gen_case(rng: random.Random, k: int) -> dict:
         fmts = ["uclchem"]          # unindexed network: re-indexed at render
     files, declared = [], []
     used_idx = []
+    may_refuse = False
     for fmt in fmts:
         recs, lines = [], []
         n = rng.randint(1, 5)
@@ -60,6 +64,12 @@ def gen_case(rng: random.Random, k: int) -> dict:
             if fmt == "krome":
                 tt, tv = rng.choice(KROME_WINDOW_TEXT)
                 ut, uv = rng.choice(KROME_WINDOW_TEXT)
+                if k % 6 == 5:
+                    if rng.random() < 0.5:
+                        tt, tv = rng.choice(KROME_EXOTIC_TEXT)
+                    else:
+                        ut, uv = rng.choice(KROME_EXOTIC_TEXT)
+                    may_refuse = True
                 rec["tmin"], rec["tmax"] = tv, uv
                 line = encoders.krome(rec, tmin_text=tt, tmax_text=ut)
             else:
@@ -85,7 +95,7 @@ def gen_case(rng: random.Random, k: int) -> dict:
     mods = {k2: f"1.{j + 1}e-9 * zeta + {j + 1}.0" for j, k2 in enumerate(keys)}
     if keys and k % 4 == 1:
         mods[keys[0]] = rng.choice([0.0, 0])     # a NUMBER, not a text: "this reaction is switched off"
-    return {"files": files, "declared": declared, "mods": mods}
+    return {"files": files, "declared": declared, "mods": mods, "may_refuse": may_refuse}
 
 
 def norm(txt: str) -> str:
@@ -224,43 +234,60 @@ def main(ctx: Ctx) -> int:
             else:
                 net = Network(filelist=flist, fileformats=fmts, rate_modifier=dict(case["mods"]))
         except Exception as e:   # noqa
+            if case.get("may_refuse"):
+                cov["files_with_untranslated_limit_spelling_refused"] = cov.get("files_with_untranslated_limit_spelling_refused", 0) + 1
+                continue
             ctx.violation(f"{pid}|Read|{type(e).__name__}", f"reading encoded files raised {type(e).__name__}: {e}", {"files": case["files"]})
             continue
         if len(net.reaction_list) != len(case["declared"]):
             ctx.violation(f"{pid}|Read|count", f"{len(case['declared'])} data lines gave {len(net.reaction_list)} reactions", {"files": case["files"]})
             continue
-        modtext = {norm(str(v)): k for k, v in case["mods"].items()}
-        for solver, method, tag in (("cvode", "dense", "dense"), ("cvode", "sparse", "sparse"), ("odeint", "rosenbrock4", "odeint")):
-            out = ctx.scratch / "r" / f"{ci}_{tag}"
-            tmpl = (["src/naunet_rates.cpp.j2", "src/naunet_fex.cpp.j2", "src/naunet_jac.cpp.j2"] if solver == "cvode" else ["src/naunet_ode.cpp.j2"])
-            try:
-                render(net, solver, method, out, templates=tmpl)
-                srcs = {p.name: p.read_text() for p in (out / "src").iterdir()}
-                ratetext = srcs.get("naunet_rates.cpp") or srcs["naunet_ode.cpp"]
-                stmts = creader.read_rates(ratetext)
-            except creader.ReadError as e:
-                ctx.violation(f"{pid}|MalformedRates|{tag}", f"{tag}: {e}", {"files": case["files"], "mods": case["mods"]})
-                continue
-            except Exception as e:   # noqa
-                ctx.violation(f"{pid}|Render|{type(e).__name__}", f"{tag}: rendering raised {type(e).__name__}: {e}", {"files": case["files"], "mods": case["mods"]})
-                continue
-            decls = [m for t in srcs.values() for m in K_DECL.finditer(creader.strip_comments(t))]
-            k_init_ok = len(decls) >= 2 and all((not m.group(1)) and m.group(2) for m in decls)
-            ev = []
-            for st in stmts:
-                g = st["guard"] or {}
-                key = modtext.get(norm(st["expr"]))
-                guard = {"has_lo": "lo" in g, "lo": int(round(g.get("lo", 0) * 100)), "lo_op": g.get("lo_op", ">="),
-                         "has_hi": "hi" in g, "hi": int(round(g.get("hi", 0) * 100)), "hi_op": g.get("hi_op", "<")}
-                ev.append({"act": "Assign", "i": st["i"], "overridden": key is not None, "modkey": key if key is not None else -999, "guard": guard,
-                           "expr": st["expr"][:80]})
-            ev.append({"act": "Finish", "nstatements": len(stmts), "k_init_ok": k_init_ok,
-                       "reindexed": [x.idxfromfile for x in net.reaction_list] == list(range(len(net.reaction_list))) and
-                       all(dd["idx"] == -1 for dd in case["declared"])})
-            tid += 1
-            traces.append({"tid": tid, "R": [{"tmin": dd["tmin"], "tmax": dd["tmax"], "idx": dd["idx"]} for dd in case["declared"]],
-                           "mods": sorted(case["mods"]), "ev": ev, "be": tag})
-            meta[tid] = case
+        for phase in (0, 1):
+            if phase == 1:
+                # the SAME Reaction objects get other windows (assigned in place) and the network is rendered again in this process: every
+                # guard must follow the window the reaction has NOW
+                if not (ci % 4 == 1 and not case["mods"] and net.reaction_list):
+                    break
+                decl2 = []
+                for rr, dd in zip(net.reaction_list, case["declared"]):
+                    lo, hi = rng.choice(WINDOWS)
+                    if dd["fmt"] in ("kida", "leeds"):
+                        lo, hi = float(int(lo)), float(int(hi))
+                    rr.temp_min, rr.temp_max = lo, hi
+                    decl2.append(dict(dd, tmin=int(round(lo * 100)), tmax=int(round(hi * 100))))
+                case = dict(case, declared=decl2, files=case["files"] + [("edit", "windows re-assigned in place: " + str([(d2["tmin"], d2["tmax"]) for d2 in decl2]))])
+            modtext = {norm(str(v)): k for k, v in case["mods"].items()}
+            for solver, method, tag in (("cvode", "dense", "dense"), ("cvode", "sparse", "sparse"), ("odeint", "rosenbrock4", "odeint")):
+                out = ctx.scratch / "r" / f"{ci}_{tag}_{phase}"
+                tmpl = (["src/naunet_rates.cpp.j2", "src/naunet_fex.cpp.j2", "src/naunet_jac.cpp.j2"] if solver == "cvode" else ["src/naunet_ode.cpp.j2"])
+                try:
+                    render(net, solver, method, out, templates=tmpl)
+                    srcs = {p.name: p.read_text() for p in (out / "src").iterdir()}
+                    ratetext = srcs.get("naunet_rates.cpp") or srcs["naunet_ode.cpp"]
+                    stmts = creader.read_rates(ratetext)
+                except creader.ReadError as e:
+                    ctx.violation(f"{pid}|MalformedRates|{tag}", f"{tag}: {e}", {"files": case["files"], "mods": case["mods"]})
+                    continue
+                except Exception as e:   # noqa
+                    ctx.violation(f"{pid}|Render|{type(e).__name__}", f"{tag}: rendering raised {type(e).__name__}: {e}", {"files": case["files"], "mods": case["mods"]})
+                    continue
+                decls = [m for t in srcs.values() for m in K_DECL.finditer(creader.strip_comments(t))]
+                k_init_ok = len(decls) >= 2 and all((not m.group(1)) and m.group(2) for m in decls)
+                ev = []
+                for st in stmts:
+                    g = st["guard"] or {}
+                    key = modtext.get(norm(st["expr"]))
+                    guard = {"has_lo": "lo" in g, "lo": int(round(g.get("lo", 0) * 100)), "lo_op": g.get("lo_op", ">="),
+                             "has_hi": "hi" in g, "hi": int(round(g.get("hi", 0) * 100)), "hi_op": g.get("hi_op", "<")}
+                    ev.append({"act": "Assign", "i": st["i"], "overridden": key is not None, "modkey": key if key is not None else -999, "guard": guard,
+                               "expr": st["expr"][:80]})
+                ev.append({"act": "Finish", "nstatements": len(stmts), "k_init_ok": k_init_ok,
+                           "reindexed": [x.idxfromfile for x in net.reaction_list] == list(range(len(net.reaction_list))) and
+                           all(dd["idx"] == -1 for dd in case["declared"])})
+                tid += 1
+                traces.append({"tid": tid, "R": [{"tmin": dd["tmin"], "tmax": dd["tmax"], "idx": dd["idx"]} for dd in case["declared"]],
+                               "mods": sorted(case["mods"]), "ev": ev, "be": tag})
+                meta[tid] = case
     if pid == "C06":
         traces += runtime_traces(ctx, rng, len(traces), 2 if ctx.quick else 10)
     v = validate_traces(ctx, "Trace_Rates.tla", "Trace_Rates.cfg", traces, "rates", chunk=1500)
